@@ -4,6 +4,7 @@ import vlib
 from vlib import Case, log, VERIF, CACHE, FLAVOURS
 import node_chan as nc
 import search_chan as sc
+import cont_chan as cc
 
 
 # ----------------------------------------------------------------------------
@@ -159,6 +160,7 @@ def replay(spec, prop, path):
 # ----------------------------------------------------------------------------
 class CaseSpec:
     flavours = None      # restrict implementation flavours (None = those of the case classes)
+    two_pass = False     # container iteration order observed on the implementation is fed to the model
     hang_secs = 5
 
     def __init__(self):
@@ -197,7 +199,8 @@ class CaseSpec:
         gen = self.cases(tier, rng)
         cases = corpus + gen
         t1 = time.time()
-        results, fls = vlib.run_all(cases, workdir, "c", flavours=self.flavours, hang_secs=self.hang_secs, env=self.env())
+        results, fls = vlib.run_all(cases, workdir, "c", flavours=self.flavours, hang_secs=self.hang_secs, env=self.env(),
+                                    two_pass=self.two_pass)
         dis = vlib.compare(cases, results, fls)
         log("[%s] correspondence: %d cases x %s, %d disagreements, %.1fs" % (prop, len(cases), fls, len(dis), time.time() - t1))
         seen = set()
@@ -537,5 +540,93 @@ class C10(SearchSpec):
     algos, whats = ("pre", "post"), ("nodes", "edges")
 
 
-REGISTRY = {"C01": C01, "C02": C02, "C03": C03, "C04": C04, "C05": C05, "C06": C06, "C07": C07, "C08": C08,
+# ----------------------------------------------------------------------------
+# C11, C12, C13, C18: containers, scc, serde
+# ----------------------------------------------------------------------------
+class ContSpec(CaseSpec):
+    two_pass = True
+
+    def sample(self, case):
+        return dict(name=case.name, cls=case.cls, steps=case.steps[:25] + (["... %d more" % (len(case.steps) - 25)] if len(case.steps) > 25 else []))
+
+
+class C11(ContSpec):
+    def cases(self, tier, rng):
+        return cc.gen_scc(rng, tier)
+
+    def exhaustive(self, tier):
+        return ("every digraph (self-loops included, no parallel edges) on 1..%d nodes, each in 2-3 fresh containers with different insertion orders"
+                % (4 if tier == "thorough" else 3)) + ("" if tier == "thorough" else "; 4-node graphs sampled")
+
+    def rule(self):
+        return ("one case = one directed graph + 2-3 fresh Graph containers (own hash seed each; forward, reverse and shuffled insertion order) + scc() on each; "
+                "the container's observed iteration order is passed to the model, the component lists must then be identical (same components, same order, same "
+                "order inside each). plus seeded random multigraphs up to 30 nodes. distinct = distinct step list; non-trivial = at least one edge")
+
+    def nontrivial(self, case):
+        return any(s.startswith("con ") for s in case.steps)
+
+    def oracle(self, case, flavour, obs):
+        return cc.oracle_scc(case, obs)
+
+
+class C18(ContSpec):
+    def cases(self, tier, rng):
+        return cc.gen_container("D", rng, tier) + cc.gen_container("U", rng, tier)
+
+    def exhaustive(self, tier):
+        return ("every history of <=%d insert/remove calls over 4 nodes (two sharing a key) and 3 keys, each followed by the full query battery, mutations through "
+                "handed-out handles and edge operations; every combination of the three DOT attribute callbacks (3x3x3)" % (4 if tier == "thorough" else 3))
+
+    def rule(self):
+        return ("container histories (insert/remove/get/index/contains/len/is_empty/to_vec/iter/roots/leaves/orphans/to_dot/to_dot_with_attr) interleaved with edge "
+                "operations on members and non-members; order-dependent outputs are compared given the observed iteration order. distinct = distinct step list; "
+                "non-trivial = at least one successful insert")
+
+    def nontrivial(self, case):
+        return any(s.startswith("gins") for s in case.steps)
+
+    def oracle(self, case, flavour, obs):
+        return cc.oracle_container(case, obs)
+
+
+class C12(ContSpec):
+    def cases(self, tier, rng):
+        return cc.gen_roundtrip("D", rng, tier) + cc.gen_roundtrip("U", rng, tier)
+
+    def exhaustive(self, tier):
+        return "all multigraphs (every insertion order) on 3 nodes with <=%d edges, 2 containers each, JSON and CBOR" % (3 if tier == "thorough" else 2)
+
+    def rule(self):
+        return ("one case = graph + containers + for JSON and CBOR: the emitted document (as a value tree; compared with the model's decompose given the observed "
+                "order) and the snapshot of the graph obtained by serialise->deserialise (compared with decompose;rebuild). seeded random graphs up to 40 nodes/120 edges. "
+                "non-trivial = at least one edge")
+
+    def nontrivial(self, case):
+        return any(s.startswith("con ") for s in case.steps)
+
+    def oracle(self, case, flavour, obs):
+        return cc.oracle_roundtrip(case, obs)
+
+
+class C13(ContSpec):
+    def cases(self, tier, rng):
+        return cc.gen_untrusted("D", rng, tier) + cc.gen_untrusted("U", rng, tier)
+
+    def exhaustive(self, tier):
+        return "every structural mutation (see mutation_kinds) of the documents of all graphs on 2 nodes with <=2 edges; sampled on further seeds"
+
+    def rule(self):
+        return ("documents are value trees derived from valid documents by drop/duplicate/retarget/retype/reorder/truncate/extend mutations, fed as JSON and as CBOR; "
+                "outcome (error, or the rebuilt graph's full snapshot) compared with the model's decode_doc;rebuild. byte-level mutations/truncations of JSON and CBOR "
+                "encodings are exercised on the implementation only (no panic, sane result). non-trivial = document with at least one node")
+
+    def nontrivial(self, case):
+        return True
+
+    def oracle(self, case, flavour, obs):
+        return cc.oracle_untrusted(case, obs)
+
+
+REGISTRY = {"C11": C11, "C12": C12, "C13": C13, "C18": C18, "C01": C01, "C02": C02, "C03": C03, "C04": C04, "C05": C05, "C06": C06, "C07": C07, "C08": C08,
             "C09": C09, "C10": C10}
